@@ -118,6 +118,7 @@ def check(ctx, rep):
         check_decoders(rep, http, cfg, cg)
         check_header_writes(rep, http, cfg)
         check_charset_consulted(rep, http, cfg)
+        check_json_from_bytes(rep, http, cfg)
     controls(ctx, rep)
     rep.assume('http_types fork: Response::new/insert_header/append_header/Headers::{insert,append} unwrap their conversions; '
                'set_body/replace_body/take_body copy the body MIME type into Content-Type when absent (read in the fork source)')
@@ -359,6 +360,40 @@ def controls(ctx, rep):
 
 LABEL_CALLS = ['encoding_rs::Encoding::for_label', 'encoding_rs::Encoding::for_label_no_replacement', 'crux_http::response::decode::is_utf8_encoding',
                'core::str::<impl str>::eq_ignore_ascii_case']
+
+
+JSON_DESERIALISERS = {'from_slice', 'from_str', 'from_reader', 'from_value'}
+
+
+def check_json_from_bytes(rep, http, cfg):
+    """R15.g: a JSON expectation yields what a conforming JSON decoder yields: JSON is UTF-8 whatever charset the Content-Type names, so
+    body_json parses the raw body bytes (serde_json::from_slice of body_bytes()) and never goes through the charset decoder"""
+    rep.rule('R15.g', 'body_json parses the raw body bytes and never goes through the charset decoder', floor=2)
+    roots = [f for f in http.built if f.name == 'body_json' and f.kind == 'AssocFn' and
+             (path_matches(f.assoc.get('self_adt'), 'crux_http::response::response::Response') or
+              path_matches(f.assoc.get('self_adt'), 'crux_http::response::response_async::ResponseAsync'))]
+    if len(roots) < 2:
+        rep.missing('R15.g', 'Response::body_json / ResponseAsync::body_json (%s)' % cfg)
+        return
+    for r in roots:
+        bodies = [r] + http.closures_of(r)
+        des = [(g, bb, t) for g in bodies for bb, t in g.calls() if norm(t.get('callee') or '').startswith('serde_json::') and
+               last_seg(t['callee']) in JSON_DESERIALISERS]
+        charset = [(g, bb, t) for g in bodies for bb, t in g.calls() if last_seg(t.get('callee') or '') in ('body_string', 'decode_body')]
+        key = '%s|json-from-bytes' % r.kpath
+        good = bool(des) and not charset
+        for g, bb, t in des:
+            src = origins(g, t['args'][0], extra_identity=[('core::ops::deref::Deref::deref', 0), ('alloc::vec::Vec::as_slice', 0),
+                                                           ('core::convert::AsRef::as_ref', 0), ('core::borrow::Borrow::borrow', 0)])
+            from_bytes = bool(src) and all(o.kind == 'call' and (last_seg(o.term.get('callee') or '') == 'body_bytes' or
+                                                                 (last_seg(o.term.get('callee') or '') == 'poll' and 'body_bytes' in (o.term.get('resolved') or '')))
+                                           for o in src)
+            good = good and last_seg(t['callee']) in ('from_slice', 'from_reader') and from_bytes
+        rep.expect('R15.g', good, key, 'serde_json::from_slice over the bytes of body_bytes(); no charset decoding',
+                   '%s no longer parses the raw body bytes (%s%s): a JSON body would be re-decoded according to the Content-Type charset, '
+                   'which a conforming JSON decoder ignores' % (r.path, ', '.join(sorted(set(norm(t['callee']) for g, bb, t in des))) or 'no serde_json call',
+                                                               '; calls ' + ', '.join(sorted(set(last_seg(t['callee']) for g, bb, t in charset))) if charset else ''),
+                   site=key + '@' + cfg)
 
 
 def check_charset_consulted(rep, http, cfg):
